@@ -14,7 +14,7 @@ import ast
 from ..match import bind_args, calls, expected_term, term_of
 from ..model import own_nodes
 from ..terms import show
-from .kernel_rules import MI, histogram, loop_cursors, self_pair_test, summary_obligations
+from .kernel_rules import MI, histogram, loop_cursors, sampling_guard, self_pair_test, summary_obligations
 
 EXPLANATION = ('Probability-kind inference (R9) extended with the displaced copy: the interpreter recognises Y*[k] = Y[(row_k + Cnt(X=v)) mod len(Y)] over enumerate(Rows(X=v)), checks buffer size and slot, '
                'and summarises the corrected path as a signed sum that must equal H(Y*|X) - H(Y|X) with identical weights and guards for both terms. Comparison normal form (R14) of the heuristic-name -> '
@@ -27,8 +27,9 @@ IE = 'outrank.algorithms.importance_estimator'
 
 def run(repo, chk, tier):
     histogram(repo, chk, 'C03.0')
-    summary_obligations(repo, chk, True, 'C03', {'badratio', 'badlog', 'badindex', 'badrange', 'badcount', 'badstore', 'baddisp'})
+    summary_obligations(repo, chk, True, 'C03', {'badratio', 'badlog', 'badindex', 'badrange', 'badcount', 'badstore', 'baddisp', 'badinit'})
     loop_cursors(repo, chk, 'C03.6')
+    sampling_guard(repo, chk, 'C03.7')
     self_pair_test(repo, chk, 'C03.5')
     flag_mapping(repo, chk)
 
